@@ -37,48 +37,6 @@ static void sort_unique(vec *v) {
 }
 static int has(const H3Index *s, int64_t n, H3Index x) { return n > 0 && bsearch(&x, s, (size_t)n, 8, cmp_u64) != NULL; }
 
-/* build the polygon of a case from its seed */
-static int make_case(uint64_t seed, vf_poly *P, int *res_out, char *desc, size_t dlen) {
-    vf_rng r;
-    vf_rng_seed(&r, seed);
-    int res = (int)vf_below(&r, 16);
-    vf_poly_opts o = {0};
-    int place = (int)vf_below(&r, 8);
-    LatLng c;
-    if (place == 0) { /* a pentagon's surroundings */
-        cellToLatLng(vf_make_cell(res, REF_PENT_BC[vf_below(&r, 12)], (int[15]){0}), &c);
-    } else if (place <= 2) { /* on the antimeridian */
-        c.lat = asin(2 * vf_unit(&r) - 1) * 0.85;
-        c.lng = vf_below(&r, 2) ? M_PI : -M_PI;
-    } else {
-        c = vf_rand_ll(&r);
-        c.lat *= 0.9;
-    }
-    H3Index ch;
-    vf_cell cc;
-    if (latLngToCell(&c, res, &ch) || vf_cell_load(ch, &cc)) return 0;
-    double w = (double)cc.width;
-    /* size in cell widths: 0.05 .. 30, log-uniform */
-    double sizew = 0.05 * pow(600.0, vf_unit(&r));
-    o.radius = sizew * w;
-    if (o.radius > 0.5) o.radius = 0.5;
-    o.lat0 = c.lat + (vf_unit(&r) - 0.5) * 2 * w;
-    o.lng0 = c.lng + (vf_unit(&r) - 0.5) * 2 * w / cos(c.lat);
-    o.rmin = vf_below(&r, 3) ? 0.3 + 0.6 * vf_unit(&r) : 0.08 + 0.2 * vf_unit(&r); /* concavity */
-    int needle = vf_below(&r, 3) == 0;
-    o.aspect = needle ? pow(10.0, -0.7 - 2.0 * vf_unit(&r)) : 1.0; /* down to 1:500 */
-    o.needle_rot = vf_unit(&r) * M_PI;
-    o.nverts = 3 + (int)vf_below(&r, 38);
-    o.nholes = vf_below(&r, 3) == 0 ? 1 + (int)vf_below(&r, 3) : 0;
-    o.holes_cw = (int)vf_below(&r, 2);
-    o.hole_scale = 0.5 + 1.5 * vf_unit(&r);
-    if (!vf_poly_gen(&r, &o, P)) return 0;
-    *res_out = res;
-    snprintf(desc, dlen, "res %d, %d vertices, %d hole(s), size %.2f cell widths, aspect %.4f, %s%s centre (%.4f,%.4f)", res, P->n, P->nholes, o.radius / w, o.aspect,
-             P->crosses_antimeridian ? "crosses the antimeridian, " : "", place == 0 ? "around a pentagon," : "", o.lat0, o.lng0);
-    return 1;
-}
-
 static ld band_for(LatLng c) {
     ld b = 64 * 2.2e-16L * (fabsl((ld)c.lng) + fabsl((ld)c.lat) + 1);
     return b > 1e-11L ? b : 1e-11L;
@@ -90,7 +48,7 @@ static void case_poly(uint64_t seed) {
     vf_poly P;
     int res;
     char desc[256];
-    if (!make_case(seed, &P, &res, desc, sizeof desc)) {
+    if (!vf_poly_case(seed, &P, &res, desc, sizeof desc)) {
         vf_poly_free(&P);
         vf_add("generator.rejected", 1);
         return;
